@@ -16,7 +16,7 @@ from ..labels import canon, csort
 from ..snap import integrity, snapshot
 from . import common
 
-EXTRA_OPS = {"convert", "twin"}
+EXTRA_OPS = {"convert", "twin", "big_complex"}
 EXPECTED_PROBES = ["convert_source_with_empty_edge", "convert_source_with_isolated_node",
                    "bipartite_graph_edge_vertices_first", "dict_cast_collision_expected"]
 REPS = {
@@ -43,8 +43,8 @@ def cross_profile(cfg, r, p):
     """nodes of one label type and edge IDs of the other, with overlapping string forms (the
     casts nodetype / edgetype then differ)"""
     if r.random() < p:
-        cfg["profile"] = r.choice(["cross_is", "cross_si"])
-        if cfg["profile"] == "cross_is":
+        cfg["profile"] = r.choice(["cross_is", "cross_si", "cross_if", "cross_fi"])
+        if cfg["profile"] in ("cross_is", "cross_if"):
             # every edge gets an explicit (string) ID, otherwise the IDs are not of one type
             cfg["explicit_idx_rate"] = 1.0
             cfg["bulk_fmts"] = [2, 4, 5]
@@ -57,6 +57,8 @@ def cross_profile(cfg, r, p):
 def next_record(sim):
     g = sim.gen
     w = sim.world
+    if g.r.random() < 0.0006:
+        return common.gen_big_complex(sim, ["hif_dict", "via_H"])
     if not w.actors or g.r.random() > sim.cfg["p_convert"]:
         return None
     free = [f"A{i}" for i in range(4) if f"A{i}" not in w.actors]
@@ -245,8 +247,14 @@ def do_convert(sim, rec):
                 expect.edges[epos[e]] = {npos[n] for n in m.edges[e]}
             expect.eattr[epos[e]] = {}
     elif rep in ("dataframe", "ctor_df"):
-        if not any(m.all_members(e) for e in m.edges) or nt is None or et is None:
-            return None  # pandas coerces mixed-type columns
+        def one_dtype(ids):
+            ts = {type(i) for i in ids}
+            return len(ts) == 1 and ts <= {int, str, float} and not any(i != i for i in ids if isinstance(i, float)) \
+                and all(abs(i) < 2 ** 63 for i in ids if isinstance(i, int))
+
+        if not any(m.all_members(e) for e in m.edges) or \
+                not one_dtype(list(m.nodes) + [x for e in m.edges for x in m.all_members(e)]) or not one_dtype(list(m.edges)):
+            return None  # pandas coerces mixed-type columns (each column is of one type here: int, str or float)
         if rep == "dataframe":
             call = lambda: xgi.from_bipartite_pandas_dataframe(xgi.to_bipartite_pandas_dataframe(A))
         else:
@@ -369,4 +377,6 @@ def do_convert(sim, rec):
 def exec_extra(sim, rec):
     if rec["op"] == "twin":
         return common.do_twin(sim, rec)
+    if rec["op"] == "big_complex":
+        return common.do_big_complex(sim, rec, {"C10"})
     return do_convert(sim, rec)
